@@ -86,6 +86,6 @@ def match_d5(pid, case, d):
         return False
     if not D5_WHERE.match(d["where"]):
         return False
-    if d["kind"] not in ("cached-differs", "history-differs", "torn-cache-differs"):
+    if d["kind"] not in ("cached-differs", "history-differs", "torn-cache-differs", "stale-cache-kept"):
         return False
     return set(ctx.get("aspects", [])) <= {"load_error", "values"} and str(ctx.get("load_error", "")).startswith("FileNotFoundError")
